@@ -1,10 +1,12 @@
 import Swat4.Drv.UCRun
+import Swat4.Lemmas.BackedStrict
 /-!
 Driver side of C16: `C16 uc <init> <clients> <events> => eff=… calls=… res=… dump=…`
 
 Oracle on the implementation's final dump (every surviving client has finished, leases expired):
-`Backed` — every server carrying `port_retry` has a queued probe with goal port for its address,
-every server carrying `details_retry` a queued probe with goal details.  A mark without a probe
+`BackedStrict` — every server carrying `port_retry` has a queued NON-EXPIRING probe with goal port for its address,
+every server carrying `details_retry` a queued non-expiring probe with goal details (`strictB`: the proved executable
+`Strict.backedStrictB` on the parsed dump; `orphans`: its text-level twin, which names the orphans).  A mark without a probe
 is classified PER ORPHAN (its own address and goal): if a probe of that address and goal was popped by a
 prober client that then died or whose execution of that probe returned an error (it *held* the probe), the
 signature is `holder-loss` (a known finding: the queue pop is destructive); if a probe of that address and goal
@@ -22,14 +24,24 @@ def svStatuses (dump : String) : List (String × Nat) :=
     | "SV" :: a :: _ :: st :: _ => st.toNat?.map fun s => (a, s)
     | _ => none
 
-/-- (address text, goal) of every queued probe -/
+/-- (address text, goal) of every queued probe THAT DOES NOT EXPIRE (expiry column `z`): a probe with an expiry (refresh,
+revival) backs nothing — `PopMany` drops it silently once its deadline has passed (`Swat4.C16.expiring_backing_orphaned`);
+this is the `InQS` of `Lemmas/BackedStrict.lean`, on the text of a dump -/
 def queued (dump : String) : List (String × String) :=
   (dump.splitOn ";").filterMap fun line =>
     match line.splitOn "," with
-    | ["PI", _, a, _, goal, _, _, _] => some (a, goal)
+    | ["PI", _, a, _, goal, _, _, exp] => if exp == "z" then some (a, goal) else none
     | _ => none
 
-/-- marks without a queued probe: (address, goal) -/
+/-- the PROVED executable oracle on the implementation's dump: the dump parsed back into a raw store (`parseDump`), abstracted
+(`RStore.abs`: a probe counts as queued when it is in `probes:queue` AND `probes:items`), and `Strict.backedStrictB` evaluated on
+it — `Strict.backedStrictB_iff : backedStrictB s = true ↔ BackedStrict s`.  `none`: the dump does not parse (an undecodable queue
+item, an unknown key). -/
+def strictB (dump : String) : Option Bool := (parseDump dump).map fun st => Swat4.C16.Strict.backedStrictB st.abs
+
+/-- marks without a queued NON-EXPIRING probe: (address, goal).  The text-level twin of `strictB` (it names the orphans, which
+the classification needs, and compares the goal column literally: a queue entry of an unknown goal backs nothing); the verdict
+requires BOTH to find nothing. -/
 def orphans (dump : String) : List (String × String) :=
   let q := queued dump
   (svStatuses dump).flatMap fun (x : String × Nat) =>
@@ -84,7 +96,8 @@ def heldAndLost (specs : List USpec) (results : List String) (hist : List HStep)
     match (specs[st.who]? : Option USpec) with
     | some (USpec.pop _ _) =>
       let r := results.getD st.who ""
-      let taken := st.removed.filter fun q => itemIsFor q a g
+      -- a probe that `PopMany` dropped as expired is held by nobody: it does not count as taken by this prober
+      let taken := st.removed.filter fun q => itemIsFor q a g && !q.expired st.clock
       !taken.isEmpty &&
         -- it died, or `PopMany` itself reported an error although the pop had taken effect (nothing of the batch was worked off)
         (r == "crashed" || r.startsWith "err" ||
@@ -140,8 +153,11 @@ def handleRunner (initS n : String) (out : List String) : Verdict :=
       | none => "?"
     let quiet := out.contains "quiet"
     let same := m.dump == idump && mmet == imet
-    let ok := fresh.isEmpty && quiet && mmet == imet
+    -- the proved oracle agrees with the text one on the whole dump whenever the planted state had no orphan of its own
+    let strictOk := !before.isEmpty || strictB idump == some (orphans idump).isEmpty
+    let ok := fresh.isEmpty && quiet && mmet == imet && strictOk
     let why := (if fresh.isEmpty then "" else s!"sig=orphan-mark:{(fresh.map fun o => o.1 ++ ":goal" ++ o.2)} ") ++
+      (cond strictOk "" s!"sig=orphan-mark-strict:backedStrictB={strictB idump}:orphans={orphans idump} ") ++
       (if quiet then "" else "sig=runner-not-quiet ") ++ (if mmet == imet then "" else s!"sig=queue-metrics model-met={mmet} impl-met={imet} ") ++
       (if m.dump == idump then "" else s!"model-dump={m.dump}")
     verdict same ok why
@@ -163,12 +179,22 @@ def handle (args out : List String) : Verdict :=
         if heldAndLost m.specs results hist x.1 x.2 then s!"sig=holder-loss:{x.1}:goal{x.2}"
         else if consumedBeforeMark m.specs icalls hist x.1 x.2 then s!"sig=consumed-before-mark:{x.1}:goal{x.2}"
         else s!"sig=orphan-mark:{x.1}:goal{x.2}"
-      let hung := (results.any fun r => r == "hung" || r.startsWith "panic") || ieff.endsWith "HUNG"
-      let ok := orph.isEmpty && !hung
-      -- report the most severe signature first
-      let sigs := (classified.filter (·.startsWith "sig=orphan")) ++ (classified.filter (·.startsWith "sig=consumed")) ++
+      let panicked := results.any fun r => r.startsWith "panic"
+      let hung := (results.any fun r => r == "hung") || ieff.endsWith "HUNG"
+      -- the proved oracle (`Strict.backedStrictB` on the parsed dump) must find the store `BackedStrict` exactly when the
+      -- text oracle names no orphan; a dump it cannot parse, or a disagreement, fails the case under its own signature
+      let strict := strictB idump
+      let strictOk := strict == some orph.isEmpty
+      let ok := orph.isEmpty && strictOk && !hung && !panicked
+      -- report the most severe signature first: a case that panicked or did not terminate carries `sig=panic` /
+      -- `sig=not-terminated` BEFORE every orphan signature, and `bin/check` accepts a failing verdict as a known finding
+      -- only if EVERY signature in it is a known one — so a hung or panicked case is never excused by a `holder-loss`
+      -- orphan it happens to contain as well
+      let sigs := (cond panicked ["sig=panic"] []) ++ (cond hung ["sig=not-terminated"] []) ++
+        (cond strictOk [] [s!"sig=orphan-mark-strict:backedStrictB={strict}:orphans={orph.length}"]) ++
+        (classified.filter (·.startsWith "sig=orphan")) ++ (classified.filter (·.startsWith "sig=consumed")) ++
         (classified.filter (·.startsWith "sig=holder"))
-      verdict same ok (dinfo ++ " ".intercalate sigs ++ (cond hung " not-terminated" ""))
+      verdict same ok (" ".intercalate (sigs ++ (if dinfo.isEmpty then [] else [dinfo])))
     | _, _, _, _, _ => .bad "C16 parse"
   | _ => .bad "C16 shape"
 
